@@ -268,18 +268,31 @@ def check_plumbing(ctx, R="C17.plumbing"):
     )
     model = ctx.model
     fn = model.func(VE, "CanSee")
-    helper = next((f for f in ast.walk(fn) if isinstance(f, ast.FunctionDef) and f.name == "canSeeHelper"), None)
+    helper = next((f for f in ast.walk(fn) if isinstance(f, ast.FunctionDef) and f is not fn), None)
     if helper is None:
         raise AnalysisError("shape not recognised: veneer.CanSee helper")
-    gens = [g for g in ast.walk(helper) if isinstance(g, ast.GeneratorExp)]
+    hp = [a.arg for a in helper.args.args]
+    if len(hp) != 3:
+        raise AnalysisError("shape not recognised: parameters of veneer.CanSee helper")
+    hx, hy, hobjs = hp
+    calls = [c for c in walk_local(helper) if isinstance(c, ast.Call) and isinstance(c.func, ast.Attribute) and c.func.attr == "canSee" and unparse(c.func.value) == hx]
     good = False
-    for g in gens:
-        conds = set()
-        for t in g.generators[0].ifs:
-            conds |= {unparse(v) for v in (t.values if isinstance(t, ast.BoolOp) and isinstance(t.op, ast.And) else [t])}
-        if conds == {"obj.occluding", "X is not obj", "Y is not obj"} and unparse(g.generators[0].iter) == "objects":
-            good = True
-    if good and "objects = toDistribution(currentScenario._objects)" in unparse(fn) and "X.canSee(Y, occludingObjects=occludingObjects)" in unparse(helper):
+    for c in calls:
+        occ = lib.kw(c, "occludingObjects")
+        if occ is None or not c.args or unparse(c.args[0]) != hy:
+            continue
+        got = lib.role_text(helper, occ)
+        alts = set()
+        import itertools as _it
+
+        for perm in _it.permutations([f"o.occluding", f"{hx} is not o", f"{hy} is not o"]):
+            alts.add(lib.role_text(None, f"tuple(o for o in {hobjs} if {' and '.join(perm)})"))
+            alts.add(lib.role_text(None, f"[o for o in {hobjs} if {' and '.join(perm)}]"))
+        good = got in alts
+    # the helper is applied to the scenario's current objects
+    outer_calls = [c for c in walk_local(fn) if isinstance(c, ast.Call) and isinstance(c.func, ast.Name) and c.func.id == helper.name and len(c.args) == 3]
+    passed = bool(outer_calls) and lib.role_text(fn, outer_calls[0].args[2]) == "toDistribution(currentScenario._objects)"
+    if good and passed:
         ctx.ok(R, helper, "`X can see Y`: occluders = all current objects that occlude, minus X and Y")
     else:
         ctx.finding(R, helper, "CanSee occluders", "veneer.CanSee no longer passes exactly the occluding objects other than viewer and target")
